@@ -60,7 +60,8 @@ def braceName : Bytes → Option Bytes
   | c :: rest =>
     if c = cLBrace then
       let name := rest.takeWhile notRBrace
-      if name ≠ [] ∧ name.length < rest.length then some name else none
+      -- a closing brace follows iff something is left after the name (checked without measuring `rest`)
+      if name ≠ [] ∧ rest.drop name.length ≠ [] then some name else none
     else none
 
 /-- After a `$`: does `([A-Za-z_][A-Za-z0-9_]*)` match here?  Returns group 2 (greedy). -/
